@@ -258,6 +258,22 @@ type rfEmb2 struct {
 	F32 float32 `avp:"V-F32"`
 	URI string  `avp:"V-URI"`
 }
+type rfRoutesFirst struct { // a grouped struct that starts with pass-through AVPs
+	S   []*diam.AVP `avp:"V-U32"`
+	U64 uint64      `avp:"V-U64"`
+	OS  string      `avp:"V-OS"`
+}
+type rf25 struct { // pass-through AVPs first, ordinary fields after them
+	S   []*diam.AVP `avp:"V-U32"`
+	ID  string      `avp:"V-ID"`
+	I64 int64       `avp:"V-I64"`
+}
+type rf26 struct {
+	Skip *uint32        `avp:"V-ENUM"`
+	G    rfRoutesFirst  `avp:"V-GRP"`
+	PG   *rfRoutesFirst `avp:"V-GRP2"`
+	UTF  string         `avp:"V-UTF8"`
+}
 type rf21 struct { // embedded structs after tagged fields, and between them
 	OS string `avp:"V-OS"`
 	rfEmbedded
@@ -286,6 +302,7 @@ var rfFamily = []func() interface{}{
 	func() interface{} { return new(rf12) }, func() interface{} { return new(rf13) }, func() interface{} { return new(rf14) },
 	func() interface{} { return new(rf15) }, func() interface{} { return new(rf16) }, func() interface{} { return new(rf17) },
 	func() interface{} { return new(rf18) }, func() interface{} { return new(rf19) }, func() interface{} { return new(rf20) },
+	func() interface{} { return new(rf25) }, func() interface{} { return new(rf26) },
 }
 
 // ---- walker
@@ -528,7 +545,7 @@ func fillValue(r *RNG, v reflect.Value, depth int) {
 		}
 		if t == reflect.TypeOf([]*diam.AVP(nil)) {
 			n := r.Intn(4)
-			s := reflect.MakeSlice(t, n, n)
+			s := reflect.MakeSlice(t, n, n+r.Intn(3)*2) // built by append: spare capacity is normal
 			for i := 0; i < n; i++ {
 				s.Index(i).Set(reflect.ValueOf(diam.NewAVP(9007, 0x40, 0, datatype.Unsigned32(r.U32()))))
 			}
@@ -676,7 +693,60 @@ func execReflect(toks []string) string {
 		return res + " w=" + g
 	}
 	res += " w=" + valueOf(reflect.ValueOf(dst2).Elem())
+	if ag, _ := kvGet(toks, "again"); ag == "1" {
+		// the struct is used again for the next message: its ordinary fields get new values (its
+		// pass-through AVP lists stay), it is marshalled into a second message, and the first
+		// message must still be what it was - in memory and for the value it did not share
+		before := showAVPs(m.AVP)
+		srcBefore := valueOf(reflect.ValueOf(src).Elem())
+		refillKeepingAVPLists(NewRNG(seed^0x51ed270b), reflect.ValueOf(src).Elem(), 0)
+		m2 := diam.NewMessage(280, 0x80, app, 2, 2, p)
+		state := "same"
+		if g := guard(func() { _ = m2.Marshal(src) }); g != "" {
+			state = g
+		} else if showAVPs(m.AVP) != before {
+			state = "changed"
+		} else {
+			// adding to the first message afterwards does not reach into the struct
+			mid := valueOf(reflect.ValueOf(src).Elem())
+			m.NewAVP(9007, 0x40, 0, datatype.Unsigned32(77))
+			m.NewAVP(9007, 0x40, 0, datatype.Unsigned32(78))
+			var chk error
+			m3 := diam.NewMessage(280, 0x80, app, 3, 3, p)
+			if g := guard(func() { chk = m3.Marshal(src) }); g != "" {
+				state = g
+			} else if valueOf(reflect.ValueOf(src).Elem()) != mid || (chk == nil && showAVPs(m3.AVP) != showAVPs(m2.AVP)) {
+				state = "struct-changed"
+			}
+		}
+		_ = srcBefore
+		res += " again=" + state
+	}
 	return res
+}
+
+var tAVPList = reflect.TypeOf([]*diam.AVP(nil))
+
+// refillKeepingAVPLists gives every field a new value, except fields of type []*diam.AVP
+func refillKeepingAVPLists(r *RNG, v reflect.Value, depth int) {
+	t := v.Type()
+	if t == tAVPList {
+		return
+	}
+	if t.Kind() == reflect.Struct && t != tAVP && t != tTime && t != tDTime && rawAVPFields(t, 0) {
+		for i := 0; i < t.NumField(); i++ {
+			if v.Field(i).CanSet() {
+				refillKeepingAVPLists(r, v.Field(i), depth+1)
+			}
+		}
+		return
+	}
+	if t.Kind() == reflect.Ptr && !v.IsNil() && t.Elem().Kind() == reflect.Struct && t.Elem() != tAVP && rawAVPFields(t.Elem(), 0) {
+		refillKeepingAVPLists(r, v.Elem(), depth+1)
+		return
+	}
+	v.Set(reflect.Zero(t))
+	fillValue(r, v, depth+1)
 }
 
 // rawAVPFields reports whether a struct type carries diam.AVP / *diam.AVP / []*diam.AVP fields
@@ -714,6 +784,9 @@ func genReflect(r *RNG, n int, op string, emit func(string)) {
 		line := fmt.Sprintf("reflect rt ty=%d seed=%d app=%d", i%len(rfFamily), r.U32(), app)
 		if r.Chance(30) {
 			line += " pre=1"
+		}
+		if raw[i%len(rfFamily)] || r.Chance(20) {
+			line += " again=1"
 		}
 		emit(line)
 	}
